@@ -273,6 +273,25 @@ fn client_ops(ctx: &Ctx, conn: Arc<Connection>, side: &'static str, parked: Arc<
         });
     }
     {
+        // a second task blocked on the same stream-count limit (queued behind the one above): closing or failing
+        // the connection has to release every waiter, not only the first of the queue
+        let c = conn.clone();
+        let p = parked.clone();
+        ctx.track(&format!("{side}.open_bi2"), later, async move {
+            tokio::time::sleep(Duration::from_millis(3)).await;
+            match c.open_bi_stream().await {
+                Ok(Some((sid, (r, w)))) => {
+                    let mut g = p.lock().unwrap();
+                    g.readers.push(r);
+                    g.writers.push(w);
+                    R::Ok(format!("opened {sid:?}"))
+                }
+                Ok(None) => R::Ok("stream ids exhausted".into()),
+                Err(e) => from_conn_err(&e),
+            }
+        });
+    }
+    {
         let c = conn.clone();
         ctx.track(&format!("{side}.dgram_recv"), later, async move {
             match c.datagram_reader() {
